@@ -325,7 +325,7 @@ PROPS = {
              "(range boundaries +-1, interiors, 0..66 sample, extremes) x file present/absent; non-trivial = answer "
              "has at least one frame; distinct by (mapping, query)",
              "mapper side and cache side (bytes -> structure -> specification) proved at full strength"),
-    "C03": P(["C03_mapper", "C03_cache", "C03_spec_properties"],
+    "C03": P(["C03_mapper", "C03_cache", "C03_spec_properties", "C03_file_independent"],
              "Theorems: the mapper built with parameter index answers parameter queries exactly as the specification "
              "Sparams (non-inlined entries, de-duplicated per class block by (obf,args,orig), file order); the "
              "specification itself has no duplicates, no inlined callees and depends only on the class block. "
@@ -333,7 +333,7 @@ PROPS = {
              "grammar mappings (inline groups, overloads, repeated entries across classes, empty argument lists) x all "
              "(class, method, params) triples of the file plus unknown values; non-trivial = non-empty answer",
              "mapper side and cache side proved at full strength"),
-    "C04": P(["C04_class_mapper", "C04_method_mapper", "C04_class_cache", "C04_method_cache", "C04_consistent"],
+    "C04": P(["C04_class_mapper", "C04_method_mapper", "C04_class_cache", "C04_method_cache", "C04_consistent", "C04_file_independent"],
              "Theorems: class lookup = original name of the last class line with exactly that obfuscated name, else "
              "nothing; method lookup answers iff all entries agree, and then every line-based frame carries that "
              "method name. Mapper and cache are compared with the extracted Sclass/Smethod.",
@@ -342,7 +342,7 @@ PROPS = {
              "non-trivial = lookup succeeds",
              "mapper side and cache side proved at full strength"),
     "C05": P(["C05_line_roundtrip", "C05_line_in_file", "C05_missing_class_colon", "C05_unspaced_arrow",
-              "C05_wrong_indentation", "C05_start_without_end", "C05_missing_return_type"],
+              "C05_wrong_indentation", "C05_start_without_end", "C05_missing_return_type", "C05_file_records", "C05_file_last_unterminated"],
              "Theorems: every line printed from the grammar AST (headers, sourceFile header, class, field, method with "
              "every optional group) parses to exactly record_of(AST), alone with any of the four terminators and as "
              "part of a file; the five documented malformations give errors carrying the line. The implementation is "
